@@ -116,6 +116,14 @@ Proof.
   repeat (apply andb_true_iff; split); try apply Z.leb_le; auto.
 Qed.
 
+Lemma resolve_jar_authentic_or prof jc cid c o j :
+  cid <> 0 -> resolve_jar prof jc cid c o = inr j ->
+  j = contents o /\ (authentic prof jc cid c o = true \/ unsigned_enabled jc c o = true).
+Proof.
+  intros H R. destruct (resolve_jar_authentic prof jc cid c o j H R) as [A B].
+  split; [exact A|]. unfold jar_ok in B. apply orb_true_iff in B. exact B.
+Qed.
+
 (* the Prop reading of the executable predicate *)
 Lemma authentic_meaning prof jc cid c o : authentic prof jc cid c o = true ->
   (exists k j, ro_sig o = SigBy k /\ In j (jc_keys c) /\ jk_key j = k) /\
@@ -308,3 +316,253 @@ Proof.
   assert (Hc : c_id c <> 0) by (rewrite Hid; exact Hnz).
   destruct (resolve_ciba_jar_authentic _ _ _ _ _ Hc D) as [_ A]. exact A.
 Qed.
+
+(* ---- JAR requirements are enforced ---- *)
+Lemma auth_jar_client_required w jx n now c q st :
+  cf_jar_enabled (w_cfg w) = true -> (cf_jar_required (w_cfg w) = true \/ c_jar_required c = true) ->
+  jq_jar q = JNone -> p_request_uri (ar_params (jq_req q)) = 0 ->
+  exists x, run_seq (auth_jar_client w jx n now c q) st = (st, x) /\ out_ok x = false.
+Proof.
+  intros Hen Hreq Hj Huri. unfold auth_jar_client.
+  destruct (should_use_par (w_cfg w) (ar_params (jq_req q)) c).
+  { rewrite Huri. simpl. eexists; split; reflexivity. }
+  assert (SJ : should_use_jar (w_cfg w) (ar_params (jq_req q)) c (jq_jar q) = true).
+  { unfold should_use_jar. rewrite Hen. cbn [andb]. destruct Hreq as [H|H]; rewrite H; [reflexivity|apply orb_true_r]. }
+  rewrite SJ. unfold jar_decision, jar_fetch. rewrite Hj. simpl.
+  eexists; split; reflexivity.
+Qed.
+
+Definition every_registration (w : world) (st : store) (i : id) (P : client -> Prop) : Prop :=
+  forall c, c_id c = i -> In c (w_static w) \/ In c (st_clients st) -> P c.
+
+Lemma init_auth_jar_required w jx n now q st :
+  cf_jar_enabled (w_cfg w) = true ->
+  (cf_jar_required (w_cfg w) = true \/ every_registration w st (ar_client (jq_req q)) (fun c => c_jar_required c = true)) ->
+  jq_jar q = JNone -> p_request_uri (ar_params (jq_req q)) = 0 ->
+  exists x, run_seq (init_auth_jar w jx n now q) st = (st, x) /\ out_ok x = false.
+Proof.
+  intros Hen Hreq Hj Huri. unfold init_auth_jar.
+  destruct (is_nil (ar_client (jq_req q))). { simpl. eexists; split; reflexivity. }
+  rewrite run_seq_bind. destruct (get_client_spec w (ar_client (jq_req q)) st) as [oc [R Hoc]]. rewrite R.
+  destruct oc as [c|]; [|simpl; eexists; split; reflexivity].
+  destruct (Hoc c eq_refl) as [Hid Hin].
+  destruct (negb (has_grant GAuthorizationCode (c_grants c) || has_grant GImplicit (c_grants c))).
+  { simpl. eexists; split; reflexivity. }
+  apply auth_jar_client_required; auto.
+  destruct Hreq as [H|H]; [left; exact H|right; apply H; auto].
+Qed.
+
+Lemma push_auth_jar_required w jx n now r st :
+  cf_jar_enabled (w_cfg w) = true ->
+  (cf_jar_required (w_cfg w) = true \/ every_registration w st (cr_id (pr_cred r)) (fun c => c_jar_required c = true)) ->
+  exists x, run_seq (push_auth_jar w jx n now r None) st = (st, x) /\ out_ok x = false.
+Proof.
+  intros Hen Hreq. unfold push_auth_jar.
+  destruct (negb (cf_par_enabled (w_cfg w))). { simpl. eexists; split; reflexivity. }
+  rewrite run_seq_bind. destruct (authenticated_spec w (pr_cred r) st) as [oc [R Hoc]]. rewrite R.
+  destruct oc as [c|]; [|simpl; eexists; split; reflexivity].
+  destruct (Hoc c eq_refl) as [Hid [_ Hin]].
+  assert (S : should_use_jar_par (w_cfg w) c false = true).
+  { unfold should_use_jar_par. rewrite Hen. cbn [andb]. destruct Hreq as [H|H]; [rewrite H; reflexivity|].
+    rewrite (H c Hid Hin). rewrite orb_false_r. apply orb_true_r. }
+  rewrite S. simpl. eexists; split; reflexivity.
+Qed.
+
+Lemma init_back_auth_jar_required w jx n now r st :
+  cf_ciba_jar_enabled (w_cfg w) = true ->
+  (cf_ciba_jar_required (w_cfg w) = true \/ jc_ciba_alg (jclient_of (jx_clients jx) (cr_id (br_cred r))) <> None) ->
+  exists x, run_seq (init_back_auth_jar w jx n now r None) st = (st, x) /\ out_ok x = false.
+Proof.
+  intros Hen Hreq. unfold init_back_auth_jar.
+  destruct (negb (cf_ciba_enabled (w_cfg w))). { simpl. eexists; split; reflexivity. }
+  rewrite run_seq_bind. destruct (authenticated_spec w (br_cred r) st) as [oc [R Hoc]]. rewrite R.
+  destruct oc as [c|]; [|simpl; eexists; split; reflexivity].
+  destruct (Hoc c eq_refl) as [Hid _].
+  assert (S : should_use_jar_ciba (w_cfg w) (jclient_of (jx_clients jx) (c_id c)) false = true).
+  { unfold should_use_jar_ciba. rewrite Hen. cbn [andb]. destruct Hreq as [H|H]; [rewrite H; reflexivity|].
+    rewrite Hid. destruct (jc_ciba_alg (jclient_of (jx_clients jx) (cr_id (br_cred r)))); [apply orb_true_r|congruence]. }
+  rewrite S. simpl. eexists; split; reflexivity.
+Qed.
+
+(* ---- under FAPI the parameters outside the object / pushed request are inert ---- *)
+Lemma start_session_outer w n now c s r1 r2 :
+  ar_policy_available r1 = ar_policy_available r2 -> ar_pol r1 = ar_pol r2 ->
+  start_session w n now c s r1 = start_session w n now c s r2.
+Proof. intros H1 H2. unfold start_session. rewrite H1, H2. reflexivity. Qed.
+
+Definition same_outside (r1 r2 : areq) : Prop :=
+  ar_client r1 = ar_client r2 /\ ar_policy_available r1 = ar_policy_available r2 /\ ar_pol r1 = ar_pol r2 /\
+  p_request_uri (ar_params r1) = p_request_uri (ar_params r2).
+
+(* a pushed request or a request object is in effect for the request, whoever the client is *)
+Definition inner_in_effect (cfg : config) (q : jareq) : bool :=
+  orb (andb (cf_par_enabled cfg) (negb (is_nil (p_request_uri (ar_params (jq_req q))))))
+      (andb (cf_jar_enabled cfg) (orb (has_obj (jq_jar q)) (andb (cf_jar_by_reference cfg) (is_ref (jq_jar q))))).
+
+Lemma inner_in_effect_branch cfg q c : inner_in_effect cfg q = true ->
+  should_use_par cfg (ar_params (jq_req q)) c = false ->
+  should_use_jar cfg (ar_params (jq_req q)) c (jq_jar q) = true.
+Proof.
+  unfold inner_in_effect, should_use_par, should_use_jar. intros H P.
+  destruct (cf_par_enabled cfg); simpl in *.
+  - destruct (negb (is_nil (p_request_uri (ar_params (jq_req q))))); simpl in *.
+    + rewrite !orb_true_r in P. discriminate.
+    + destruct (cf_jar_enabled cfg); simpl in *; [|discriminate].
+      destruct (has_obj (jq_jar q)); simpl in *; [rewrite !orb_true_r; reflexivity|].
+      destruct (cf_jar_by_reference cfg); simpl in *; [|discriminate]. rewrite H. rewrite !orb_true_r. reflexivity.
+  - destruct (cf_jar_enabled cfg); simpl in *; [|discriminate].
+    destruct (has_obj (jq_jar q)); simpl in *; [rewrite !orb_true_r; reflexivity|].
+    destruct (cf_jar_by_reference cfg); simpl in *; [|discriminate]. rewrite H. rewrite !orb_true_r. reflexivity.
+Qed.
+
+Lemma jar_fetch_outer cfg jc c jcl o1 o2 jin : jar_fetch cfg jc c jcl o1 jin = jar_fetch cfg jc c jcl o2 jin.
+Proof. destruct jin as [|o|h [o|]]; reflexivity. Qed.
+
+Lemma jar_session_fapi cfg c outer jin j p : is_fapi (cf_profile cfg) = true ->
+  jar_session cfg c outer jin j = inr p -> p = jr_params j.
+Proof.
+  intros F. unfold jar_session. rewrite F.
+  destruct (negb (ideq (jr_client j) (c_id c))); [discriminate|].
+  destruct (validate_params_x cfg (jr_params j) c _ _); [discriminate|].
+  destruct (validate_in_out_x cfg (jr_params j) outer c _ _); [discriminate|].
+  destruct (jr_nested_uri j); [discriminate|]. destruct (jr_nested_req j); [discriminate|].
+  intros H; inversion H; reflexivity.
+Qed.
+
+Lemma jar_decision_fapi_inert cfg jc c jcl o1 o2 jin p1 p2 : is_fapi (cf_profile cfg) = true ->
+  jar_decision cfg jc c jcl o1 jin = inr p1 -> jar_decision cfg jc c jcl o2 jin = inr p2 -> p1 = p2.
+Proof.
+  intros F. unfold jar_decision. rewrite (jar_fetch_outer cfg jc c jcl o1 o2 jin).
+  destruct (jar_fetch cfg jc c jcl o2 jin) as [e|j]; [discriminate|].
+  intros H1 H2. apply jar_session_fapi in H1; auto. apply jar_session_fapi in H2; auto. congruence.
+Qed.
+
+Lemma should_use_par_uri cfg p1 p2 c : p_request_uri p1 = p_request_uri p2 -> should_use_par cfg p1 c = should_use_par cfg p2 c.
+Proof. unfold should_use_par. intros ->. reflexivity. Qed.
+Lemma should_use_jar_uri cfg p1 p2 c j : p_request_uri p1 = p_request_uri p2 -> should_use_jar cfg p1 c j = should_use_jar cfg p2 c j.
+Proof. unfold should_use_jar. intros ->. reflexivity. Qed.
+
+Local Opaque validate_in_out validate_in_out_x validate_params validate_params_x merge_params start_session render_aerr
+  jar_decision par_verdict.
+
+Lemma auth_jar_client_inert w jx n now c q1 q2 st s1 x1 s2 x2 :
+  is_fapi (cf_profile (w_cfg w)) = true ->
+  same_outside (jq_req q1) (jq_req q2) -> jq_jar q1 = jq_jar q2 -> inner_in_effect (w_cfg w) q1 = true ->
+  run_seq (auth_jar_client w jx n now c q1) st = (s1, x1) ->
+  run_seq (auth_jar_client w jx n now c q2) st = (s2, x2) ->
+  out_ok x1 = true -> out_ok x2 = true -> s1 = s2 /\ x1 = x2.
+Proof.
+  intros F [Hc [Hpa [Hpol Huri]]] Hj Hin. unfold auth_jar_client.
+  rewrite <- (should_use_par_uri _ _ _ c Huri), <- (should_use_jar_uri _ _ _ c (jq_jar q2) Huri), <- Hj, <- Huri, <- Hc.
+  rewrite F.
+  destruct (should_use_par (w_cfg w) (ar_params (jq_req q1)) c) eqn:SP.
+  - destruct (is_nil (p_request_uri (ar_params (jq_req q1)))).
+    { simpl. intros H1 H2; inversion H1; subst. discriminate. }
+    simpl. destruct (find (fun s => ideq (a_par s) (p_request_uri (ar_params (jq_req q1)))) (st_asess st)) as [s|]; simpl.
+    + destruct (par_verdict (w_cfg w) now c s (ar_client (jq_req q1)) (ar_params (jq_req q1)) (jq_jar q1)) as [e1|].
+      { simpl. intros H1 H2; inversion H1; subst. rewrite render_aerr_not_ok. discriminate. }
+      destruct (par_verdict (w_cfg w) now c s (ar_client (jq_req q1)) (ar_params (jq_req q2)) (jq_jar q1)) as [e2|].
+      { simpl. intros H1 H2; inversion H2; subst. rewrite render_aerr_not_ok. discriminate. }
+      rewrite (start_session_outer w n now c s (jq_req q1) (jq_req q2) Hpa Hpol).
+      intros H1 H2 _ _. rewrite H1 in H2. inversion H2; auto.
+    + intros H1 H2; inversion H1; subst. discriminate.
+  - rewrite (inner_in_effect_branch _ _ _ Hin SP).
+    destruct (jar_decision (w_cfg w) (jx_cfg jx) c (jclient_of (jx_clients jx) (c_id c)) (ar_params (jq_req q1)) (jq_jar q1)) as [e1|p1] eqn:D1.
+    { simpl. intros H1 H2; inversion H1; subst. rewrite render_aerr_not_ok. discriminate. }
+    destruct (jar_decision (w_cfg w) (jx_cfg jx) c (jclient_of (jx_clients jx) (c_id c)) (ar_params (jq_req q2)) (jq_jar q1)) as [e2|p2] eqn:D2.
+    { simpl. intros H1 H2; inversion H2; subst. rewrite render_aerr_not_ok. discriminate. }
+    rewrite (jar_decision_fapi_inert _ _ _ _ _ _ _ _ _ F D1 D2).
+    rewrite (start_session_outer w n now c _ (jq_req q1) (jq_req q2) Hpa Hpol).
+    intros H1 H2 _ _. rewrite H1 in H2. inversion H2; auto.
+Qed.
+
+Lemma init_auth_jar_inert w jx n now q1 q2 st s1 x1 s2 x2 :
+  is_fapi (cf_profile (w_cfg w)) = true ->
+  same_outside (jq_req q1) (jq_req q2) -> jq_jar q1 = jq_jar q2 -> inner_in_effect (w_cfg w) q1 = true ->
+  run_seq (init_auth_jar w jx n now q1) st = (s1, x1) ->
+  run_seq (init_auth_jar w jx n now q2) st = (s2, x2) ->
+  out_ok x1 = true -> out_ok x2 = true -> s1 = s2 /\ x1 = x2.
+Proof.
+  intros F S Hj Hin. unfold init_auth_jar. destruct S as [Hc S'].
+  rewrite <- Hc.
+  destruct (is_nil (ar_client (jq_req q1))). { simpl. intros H1 H2; inversion H1; subst. discriminate. }
+  rewrite !run_seq_bind. destruct (get_client_spec w (ar_client (jq_req q1)) st) as [oc [R _]]. rewrite R.
+  destruct oc as [c|]; [|simpl; intros H1 H2; inversion H1; subst; discriminate].
+  destruct (negb (has_grant GAuthorizationCode (c_grants c) || has_grant GImplicit (c_grants c))).
+  { simpl. intros H1 H2; inversion H1; subst. discriminate. }
+  apply auth_jar_client_inert; auto. split; auto.
+Qed.
+
+(* the same for the handler of Model/Authorize.v (no request objects): a pushed request *)
+Local Opaque validate_in_out.
+Lemma init_auth_par_inert w n now r1 r2 st s1 x1 s2 x2 :
+  is_fapi (cf_profile (w_cfg w)) = true -> same_outside r1 r2 ->
+  cf_par_enabled (w_cfg w) = true -> p_request_uri (ar_params r1) <> 0 ->
+  run_seq (init_auth w n now r1) st = (s1, x1) ->
+  run_seq (init_auth w n now r2) st = (s2, x2) ->
+  out_ok x1 = true -> out_ok x2 = true -> s1 = s2 /\ x1 = x2.
+Proof.
+  intros F [Hc [Hpa [Hpol Huri]]] Hen Hnz. unfold init_auth.
+  rewrite <- Hc.
+  destruct (is_nil (ar_client r1)). { simpl. intros H1 H2; inversion H1; subst. discriminate. }
+  rewrite !run_seq_bind. destruct (get_client_spec w (ar_client r1) st) as [oc [R _]]. rewrite R.
+  destruct oc as [c|]; [|simpl; intros H1 H2; inversion H1; subst; discriminate].
+  destruct (negb (has_grant GAuthorizationCode (c_grants c) || has_grant GImplicit (c_grants c))).
+  { simpl. intros H1 H2; inversion H1; subst. discriminate. }
+  assert (Z : is_nil (p_request_uri (ar_params r1)) = false) by (unfold is_nil; apply N.eqb_neq; exact Hnz).
+  assert (SP : should_use_par (w_cfg w) (ar_params r1) c = true).
+  { unfold should_use_par. rewrite Hen, Z. simpl. rewrite !orb_true_r. reflexivity. }
+  rewrite <- (should_use_par_uri _ _ _ c Huri), SP, <- Huri, Z, F.
+  simpl. destruct (find (fun s => ideq (a_par s) (p_request_uri (ar_params r1))) (st_asess st)) as [s|]; simpl.
+  - destruct (negb (ideq (a_client s) (ar_client r1))).
+    { simpl. intros H1 H2; inversion H1; subst. rewrite render_aerr_not_ok. discriminate. }
+    destruct (geb now (a_expires s)).
+    { simpl. intros H1 H2; inversion H1; subst. rewrite render_aerr_not_ok. discriminate. }
+    destruct (validate_in_out (w_cfg w) (a_params s) (ar_params r1) (client_for_par (w_cfg w) c (p_redirect (a_params s)))).
+    { simpl. intros H1 H2; inversion H1; subst. rewrite render_aerr_not_ok. discriminate. }
+    destruct (validate_in_out (w_cfg w) (a_params s) (ar_params r2) (client_for_par (w_cfg w) c (p_redirect (a_params s)))).
+    { simpl. intros H1 H2; inversion H2; subst. rewrite render_aerr_not_ok. discriminate. }
+    rewrite (start_session_outer w n now c s r1 r2 Hpa Hpol).
+    intros H1 H2 _ _. rewrite H1 in H2. inversion H2; auto.
+  - intros H1 H2; inversion H1; subst. discriminate.
+Qed.
+
+(* without request objects and with JAR not in effect the JAR-aware handler is the handler of Authorize.v *)
+Lemma validate_optionals_x_plain cfg p c : validate_optionals_x cfg p c None false = validate_optionals cfg p c.
+Proof.
+Local Transparent validate_params validate_params_x validate_in_out validate_in_out_x.
+  unfold validate_optionals_x.
+  destruct (negb (is_empty (p_redirect p)) && negb (redirect_allowed c (p_redirect p)))%bool eqn:E.
+  - unfold validate_optionals. rewrite E. reflexivity.
+  - destruct (validate_optionals cfg p c); reflexivity.
+Qed.
+
+(* ---- the hypotheses of the theorems are satisfiable: a concrete FAPI 2.0 world ---- *)
+Module C07Example.
+  Definition cl1 : client :=
+    mkClient 1 false [GAuthorizationCode] ["code"] ["https://c1.example/cb"] "openid email" CibaNone
+             false false false false false false false 0 false.
+  Definition cfg : config :=
+    match build PFapi2 [WithAuthorizationCodeGrant; WithJAR; WithPAR 60%Z] with Some c => c | None => base_config PFapi2 end.
+  Definition w : world := mkWorld cfg [cl1].
+  Definition jx : jworld := mkJWorld (mkJCfg [AES256] false [AES256] 0%Z) [(1, mkJClient [mkJwk 611 AES256 511] None None)].
+  Definition inner : params := mkParams 0 "https://c1.example/cb" "" "code" "openid" "st-in" "n-in" PkEmpty "" 0 "" 0 "".
+  Definition obj : req_object :=
+    mkRO EncNone (SigBy 511) AES256 611 1 true (Some 300%Z) (Some (-10)%Z) (Some (-10)%Z) true 1 false false inner.
+  Definition q (outer : params) : jareq := mkJAReq (mkAReq 1 outer true PolInProgress) (JValue obj).
+  Definition outer1 : params := empty_params.
+  Definition outer2 : params := mkParams 0 "" "" "code" "openid" "st-out" "n-out" PkEmpty "" 0 "" 0 "".
+
+  Example object_accepted : resolve_jar PFapi2 (jx_cfg jx) 1 (jclient_of (jx_clients jx) 1) obj = inr (contents obj).
+  Proof. vm_compute. reflexivity. Qed.
+  Example both_accepted_and_equal :
+    let r1 := run_seq (init_auth_jar w jx 0 0%Z (q outer1)) empty_store in
+    let r2 := run_seq (init_auth_jar w jx 0 0%Z (q outer2)) empty_store in
+    out_ok (snd r1) = true /\ out_ok (snd r2) = true /\ r1 = r2 /\ inner_in_effect cfg (q outer1) = true /\
+    is_fapi (cf_profile cfg) = true.
+  Proof. vm_compute. repeat split; reflexivity. Qed.
+  Example stripped_refused :
+    exists e, resolve_jar PFapi2 (jx_cfg jx) 1 (jclient_of (jx_clients jx) 1)
+                (mkRO EncNone SigEmpty AES256 611 0 false None None None false 1 false false inner) = inl e.
+  Proof. eexists. vm_compute. reflexivity. Qed.
+End C07Example.
